@@ -185,6 +185,35 @@ func runC02(c *Ctx) {
 			mk(cfg, now0, v, 1, 0, 2, bad, "multi-assertion")
 		}
 	}
+	// artifact entry point: the ArtifactResponse's own IssueInstant, under each configuration
+	for vi, set := range []func(c *Cfg){func(c *Cfg) {}, func(c *Cfg) { c.AllowIdpInit = true }, func(c *Cfg) { c.CustomReqID, c.CustomAud = Bptr(true), Bptr(true) }} {
+		cfg := defaultCfg()
+		set(&cfg)
+		for _, kk := range []int{0, 1, 2, 3, 4} {
+			for _, off := range nowOffsets {
+				for _, signAR := range []bool{true, false} {
+					n++
+					now := now0 + off
+					N := now / ms * ms
+					rs, as := validSpecs(cfg, N, fmt.Sprintf("art%d", n))
+					a := buildAssertion(as)
+					if !signAR {
+						SignInto(a, 0)
+					}
+					r := buildResponse(rs, a)
+					ars := RespSpec{Tag: "ArtifactResponse", ID: fmt.Sprintf("ar-%d", n), IRT: sp("resolve-1"),
+						Issue: sp(fmtMS(lat(N-cfg.MaxIssueDelay, true, kk, int64(10*time.Hour)))), Issuer: sp(cfg.IdpEntity), Status: sp(statusSuccess)}
+					ar := buildResponse(ars, r)
+					if signAR {
+						SignInto(ar, 0)
+					}
+					c.Count("class/artifact")
+					addRun(c, g, &Run{Cfg: cfg, IDs: []string{"req-1"}, Now: now, Cur: cfg.AcsURL, Entry: 1, Rid: "resolve-1", Doc: soapWrap(ar)},
+						map[string]string{"class": "artifact", "variant": fmt.Sprint(vi), "ar_issue": fmt.Sprint(kk), "now_offset_ns": fmt.Sprint(off)}, false)
+				}
+			}
+		}
+	}
 	c02Lexical(c, g)
 }
 
